@@ -84,3 +84,7 @@ def run(ctx):
         "NewClone is only used on trees named 0..n-1 (side condition [pre]; C07_create_after_prune_refuted shows it is needed)",
         "crashes of a sampler are recorded in the histogram but judged by C19, not here",
     ]
+
+
+def replay(ctx, doc):
+    h.replay_doc(ctx, doc, "C07")
